@@ -71,14 +71,17 @@ def scenarios(rng, tier, runner):
     # the new references are data: set them, let the encoder settle, then look at the layout
     nums = [d for d in pool["num"] if B[d][2] <= 24]
     for i in range(40 if tier == "quick" else 400):
-        y = rng.choice([8, 12, 16, 20])
+        y = rng.choice([8, 12, 16, 20, 26, 30, 32])
         k_ = rng.choice([2, 2, 3, 4])
         els = rng.sample(nums, k_)
         order = rng.choice(["asc", "desc", "mixed"])
         els = sorted(els) if order == "asc" else sorted(els, reverse=True) if order == "desc" else els
         tail = els[:] if rng.random() < 0.5 else list(reversed(els))
         t = [203000 + y] + els + [203255] + tail + [203000] + tail
-        vals = [rng.choice([0, 1, -1 * rng.randrange(1, 2 ** (y - 1)), rng.randrange(1, 2 ** (y - 1))]) for _ in els]
+        # the most negative magnitude is the all-ones pattern, which 94.1.5 reads as "missing": left out (ambiguous in FM 94)
+        # and -1, which the library's integer sentinel cannot tell from "missing" (known finding C09-newref-minus-one)
+        vals = [rng.choice([0, 1, -1 * rng.randrange(2, 2 ** (y - 1) - 1), rng.randrange(1, 2 ** (y - 1)),
+                            rng.choice([1, -1]) * (2 ** (y - 2) + 1)]) for _ in els]
         ls = ["T.use loc", tline(4, t), "ss.new"]
         for j, v in enumerate(vals):
             raw = v if v >= 0 else (1 << (y - 1)) | (-v)
@@ -168,6 +171,32 @@ def check_layout(B, ed, nodes, newrefs=None):
             return "%06d: layout (type,width,scale,ref,af) is %s, FM 94 Table C gives %s" % (d, got, exp), None
     return None, None
 
+def derive_newrefs(scn, subset):
+    """the new reference values a hand-written (corpus) scenario sets through `ss.setraw`, for a flat template:
+    -> list in template order, or None when the scenario is not of that simple shape"""
+    tm = next((l.split() for l in scn.lines if l.startswith("tm.new")), None)
+    if tm is None:
+        return None
+    t = [int(d) for d in tm[2:]]
+    if any(regs.F(d) in (1, 3) for d in t) or not any(d // 1000 == 203 for d in t):
+        return None
+    raws = {}
+    for l in scn.lines:
+        f = l.split()
+        if f[0] == "ss.setraw" and len(f) == 4 and f[1] == str(subset):
+            raws[int(f[2])] = int(f[3])
+    out, y = [], 0
+    for i, d in enumerate(t):
+        if d // 1000 == 203:
+            y = 0 if d % 1000 in (0, 255) else d % 1000
+        elif y and regs.F(d) == 0:
+            r = raws.get(i)
+            if r is None or r == (1 << y) - 1:
+                out.append(None)
+            else:
+                out.append(r if r < (1 << (y - 1)) else -(r - (1 << (y - 1))))
+    return out
+
 def oracle(scn, outs):
     name, ed = scn.meta.get("tables"), scn.meta.get("ed")
     B = None
@@ -180,7 +209,9 @@ def oracle(scn, outs):
             ed = int(t[1]); accepted = o.startswith("ok")
         elif t[0] == "ss.list" and accepted and B is not None and o not in ("none", "-"):
             nr = scn.meta.get("newrefs")
-            if nr is not None and not (sum(1 for l in scn.lines if l.startswith("ss.setraw")) == len(nr) and "ds.encode 0" in scn.lines):
+            if nr is None and scn.meta.get("corpus") and "ds.encode 0" in scn.lines:
+                nr = derive_newrefs(scn, t[1])
+            elif nr is not None and not (sum(1 for l in scn.lines if l.startswith("ss.setraw")) == len(nr) and "ds.encode 0" in scn.lines):
                 continue      # a shrunk scenario that no longer installs every new reference
             r, skip = check_layout(B, ed, parse_nodes(o), nr)
             if r:
